@@ -84,11 +84,24 @@ def check_normalise(repo, rep, mod):
     norm = ci.methods.get('_normalize_name')
     if norm is None:
         raise AnalysisError('anchor vanished: Context._normalize_name')
-    try:
-        keys = {lit: minieval.run_function(norm.node, {
-            norm.params()[-1]: lit}) for lit in ('', '$', '$1', 'x', '$x')}
-    except minieval.Unsupported as e:
-        raise AnalysisError('cannot interpret _normalize_name: %s' % e)
+    from sa import absint
+    keys = {}
+    for lit in ('', '$', '$1', 'x', '$x'):
+        try:
+            keys[lit] = minieval.run_function(norm.node, {
+                norm.params()[-1]: lit})
+        except minieval.Unsupported:
+            # module-level tables, helpers: the full evaluator
+            try:
+                out = absint.Interp(repo, norm.module).run(
+                    norm.node, {norm.params()[-1]: lit})
+            except (absint.Unsupported, absint._Raise) as e:
+                raise AnalysisError('cannot interpret _normalize_name: %s'
+                                    % e)
+            if out[0] != 'return' or not isinstance(out[1], str):
+                raise AnalysisError('cannot interpret _normalize_name: %r'
+                                    % (out,))
+            keys[lit] = out[1]
     rep.ob('R17a', norm.key + '/one-variable', keys[''] == keys['$'] ==
            keys['$1'] and keys['x'] == keys['$x'] and keys['x'] != keys['$'],
            '`$`, `$1` and the empty name must normalise to one key and '
@@ -766,10 +779,18 @@ def check_child_of_self(repo, rep, mod):
     of, so everything visible there (own layer, parents, linked / merged
     members) is visible in the child and later writes to it are seen."""
     n = 0
+    done = set()
     for ci in mod.classes.values():
-        m = ci.methods.get('create_child_context')
+        # the implementation each context class ends up with (its own or
+        # an inherited one)
+        m = repo.find_method(ci, 'create_child_context')
         if m is None:
             continue
+        if m.key in done:
+            n += 1
+            continue
+        done.add(m.key)
+        ci = m.cls
         selfn = m.params()[0]
         rets = [r for r in model.walk_shallow(m.node)
                 if isinstance(r, ast.Return)]
@@ -799,6 +820,51 @@ def check_child_of_self(repo, rep, mod):
                loc=mod.loc(bad[0] if bad else m.node),
                construct=model.norm(bad[0]) if bad else '')
     rep.floor('create_child_context implementations', n, 3)
+
+
+def _multi_parent_by_evaluation(repo, mod, ci, init, plist, attr):
+    """Construct a multi-context abstractly from 1..3 members, each with or
+    without a parent, and look at the parent it ends up with: none when no
+    member has one, the parent itself when one has, and a multi-context of
+    all the parents, in member order, when several have.  None when the
+    constructor is outside the evaluator's fragment (the caller then falls
+    back to the shape of the code)."""
+    import itertools
+    from sa import absint
+    slf_name = init.params()[0]
+    for k in (1, 2, 3):
+        for pattern in itertools.product((False, True), repeat=k):
+            conv = absint.Sym('convention')
+            parents = [absint.Obj('P%d' % i, parent=None, convention=conv)
+                       if has else None for i, has in enumerate(pattern)]
+            members = tuple(absint.Obj('M%d' % i, parent=p, convention=conv)
+                            for i, p in enumerate(parents))
+            slf = absint.Obj('self', __class__=ci)
+            it = absint.Interp(repo, mod)
+            try:
+                out = it.run(init.node, {slf_name: slf, plist: members})
+                if out[0] != 'return':
+                    return False
+                got = it.ev(ast.parse('%s.parent' % slf_name,
+                                      mode='eval').body, {slf_name: slf})
+                want = [p for p in parents if p is not None]
+                if not want:
+                    ok = got is None
+                elif len(want) == 1:
+                    ok = got is want[0]
+                else:
+                    ok = isinstance(got, absint.Obj) and got.attrs.get(
+                        '__class__') is ci
+                    if ok:
+                        inner = got.attrs.get(attr)
+                        ok = isinstance(inner, (tuple, list)) and len(
+                            inner) == len(want) and all(
+                            a is b for a, b in zip(inner, want))
+                if not ok:
+                    return False
+            except (absint.Unsupported, absint._Raise, RecursionError):
+                return None
+    return True
 
 
 def check_multi(repo, rep, mod):
@@ -893,6 +959,9 @@ def check_multi(repo, rep, mod):
             all_parents = True
     own = [c for c in model.calls_in(init.node)
            if isinstance(c.func, ast.Name) and c.func.id == ci.node.name]
+    verdict = _multi_parent_by_evaluation(repo, mod, ci, init, plist, attr)
+    if verdict is not None:
+        all_parents, own = verdict, [True]
     rep.ob('R17f', init.key, all_parents and bool(own),
            'the parent of a multi-context is built from the parents of '
            'ALL members (a MultiContext of parents when there are '
